@@ -201,6 +201,72 @@ def run_restest(ctx, n, d):
         shutil.rmtree(t, ignore_errors=True)
 
 
+def restest_multi_once(ctx, t, ref, bad, m, bad_runs):
+    """restest -m <m> with a repair stub that yields the tree `bad` in the runs listed in bad_runs and the original otherwise.
+    Returns (exit status, averaged final error as printed, per-run model errors)."""
+    import re
+    import pyFileFixity.resiliency_tester as rt
+    os.makedirs(t)
+    orig = os.path.join(t, 'orig'); fin = os.path.join(t, 'fin'); os.makedirs(orig); os.makedirs(fin)
+    write_tree(orig, ref); write_tree(fin, bad)
+    open(os.path.join(t, 'tamper.sh'), 'w').write('for f in $(find "$1" -type f); do printf Q >> "$f"; done\n')
+    open(os.path.join(t, 'repair.sh'), 'w').write(
+        'n=$(cat "%s/cnt" 2>/dev/null || echo 0); n=$((n+1)); echo $n > "%s/cnt"\n'
+        'case " %s " in *" $n "*) cp -r "%s"/. "$2"/ ;; *) cp -r "%s"/. "$2"/ ;; esac\n' % (t, t, ' '.join(str(x) for x in sorted(bad_runs)), fin, orig))
+    open(os.path.join(t, 'cfg'), 'w').write(RESTEST_CFG.format(t=t))
+    buf = io.StringIO()
+    log = os.path.join(t, 'log.txt')
+    try:
+        with contextlib.redirect_stdout(buf), contextlib.redirect_stderr(buf):
+            rc = rt.main(['-i', orig, '-o', os.path.join(t, 'out'), '-c', os.path.join(t, 'cfg'), '--silent', '-f', '-m', str(m), '-l', log])
+    except BaseException as e:
+        rc = 'EXC ' + repr(e)
+    text = open(log, errors='replace').read() if os.path.exists(log) else ''
+    tail = text.split('FINAL AVERAGED RESULTS')[-1] if 'FINAL AVERAGED RESULTS' in text else ''
+    mfin = re.search(r'=> Stage: final\s*\n(?:\s*- [^\n]*\n)*?\s*- Error rate \(from original\): ([-+0-9.eE]+|nan|inf)', tail)
+    reported = float(mfin.group(1)) if mfin else None
+    rk = sorted(ref)
+    errs = []
+    for j in range(1, m + 1):
+        eff = {p: (bad.get(p, c + b'Q') if j in bad_runs else c) for p, c in ref.items()}
+        o = ctx.model.run(['diffdir 65535 %s %s %s %s' % (hxl([x.encode() for x in rk]), hxl([ref[x] for x in rk]),
+                                                         hxl([x.encode() for x in rk]), hxl([eff[x] for x in rk]))])[0].split()
+        errs.append(100.0 * int(o[0]) / int(o[1]) if int(o[1]) else 0.0)
+    return rc, reported, errs
+
+
+def run_restest_multi(ctx, n, d):
+    """--multiple: the averaged final error the tester reports is the mean of the per-run final errors, so it is 0 (with exit 0)
+    only if the final tree of EVERY run is identical to the original."""
+    rng = ctx.rng
+    for k in range(n):
+        ref, bad = gen_tree(rng)
+        bad = {p: c for p, c in bad.items() if p in ref}
+        if sum(max(len(c), len(bad.get(p, c))) for p, c in ref.items()) == 0:
+            continue
+        m = rng.choice([2, 3])
+        bad_runs = rng.choice([[1], [1], [m], list(range(1, m + 1)), [], [1, m]])
+        case = {'kind': 'restest-multi', 'ref': {p: c.hex() for p, c in ref.items()}, 'bad': {p: c.hex() for p, c in bad.items()},
+                'm': m, 'bad_runs': bad_runs}
+        t = os.path.join(d, 'rm%d' % k)
+        rc, reported, errs = restest_multi_once(ctx, t, ref, bad, m, set(bad_runs))
+        shutil.rmtree(t, ignore_errors=True)
+        ctx.evaluations += 1
+        ctx.count('restest_multi_cases')
+        ctx.count('restest_multi_bad_runs=%s' % ('none' if not bad_runs else 'first' if bad_runs == [1] else 'last' if bad_runs == [m] else 'several'))
+        mean = sum(errs) / len(errs)
+        if any(errs):
+            ctx.nontriv(repr(case))
+        if reported is None or abs(reported - mean) > 1e-4 * max(1.0, mean):
+            ctx.disagree(case, {'averaged_final_error': mean, 'per_run': errs}, {'averaged_final_error': reported, 'exit': rc},
+                         what='averaged final error printed by restest != mean of the per-run errors of the model')
+        if reported == 0 and rc == 0 and any(errs):
+            ctx.fail(case, {'exit': rc, 'reported_final_error': reported, 'per_run_final_errors': errs,
+                            'what': 'final error 0 and exit 0 although the final tree of some run differs from the original'})
+        else:
+            ctx.traces += 1
+
+
 def run(ctx):
     rng = ctx.rng
     d = tempfile.mkdtemp(prefix='pffc20')
@@ -235,6 +301,7 @@ def run(ctx):
             tcases.append((rng.choice([1, 2, 3, 4, 7, 65535]), ref, other))
         run_trees(ctx, tcases, d)
         run_restest(ctx, 12 if ctx.tier == 'quick' else 150, d)
+        run_restest_multi(ctx, 8 if ctx.tier == 'quick' else 80, d)
     finally:
         shutil.rmtree(d, ignore_errors=True)
 
@@ -271,6 +338,14 @@ def replay_case(ctx, case):
                 got = ('EXC', repr(e))
             want = tree_expect(ref, other)
             return {'holds': got == want, 'implementation': got, 'property_expects': want}
+        if case['kind'] == 'restest-multi':
+            ref = {k: bytes.fromhex(v) for k, v in case['ref'].items()}
+            bad = {k: bytes.fromhex(v) for k, v in case['bad'].items()}
+            rc, reported, errs = restest_multi_once(ctx, os.path.join(d, 'rm'), ref, bad, case['m'], set(case['bad_runs']))
+            mean = sum(errs) / len(errs)
+            return {'holds': not (reported == 0 and rc == 0 and any(errs)), 'implementation': {'exit': rc, 'averaged_final_error': reported},
+                    'model': {'per_run_final_errors': errs, 'mean': mean},
+                    'agree': reported is not None and abs(reported - mean) <= 1e-4 * max(1.0, mean)}
         return {'holds': True, 'note': 'restest cases are regenerated, not replayed'}
     finally:
         shutil.rmtree(d, ignore_errors=True)
